@@ -373,11 +373,27 @@ where
                 self.connection.on_incoming_end(channel, end).await?;
             }
             FrameBody::Close(close) => {
-                let result = self.connection.on_incoming_close(channel, close);
+                let result = self
+                    .connection
+                    .on_incoming_close(channel, close)
+                    .map_err(ConnectionInnerError::from);
                 if matches!(
                     self.connection.local_state(),
                     ConnectionState::CloseReceived
                 ) {
+                    // Record the remote close before the channel closes, so sessions
+                    // and links that fail on the closure observe the peer's error.
+                    match &result {
+                        Err(ConnectionInnerError::RemoteClosedWithError(error)) => {
+                            self.connection.set_connection_stop_reason(
+                                ConnectionStopReason::RemoteClosedWithError(error.clone()),
+                            )
+                        }
+                        Err(ConnectionInnerError::RemoteClosed) => self
+                            .connection
+                            .set_connection_stop_reason(ConnectionStopReason::RemoteClosed),
+                        _ => {}
+                    }
                     self.outgoing_session_frames.close();
                     while let Some(frame) = self.outgoing_session_frames.recv().await {
                         self.on_outgoing_session_frames(frame).await?;
